@@ -10,6 +10,10 @@
 use super::*;
 
 const N: usize = @@N@@;
+/// SmallVec-backed deques are explored up to NS elements only (inline capacity 2, so the
+/// inline -> heap transition is inside the bound): CBMC runs out of memory beyond that on the
+/// operations that slide (measured: > 20 GB at 5 elements).
+const NS: usize = @@NS@@;
 
 /// The representation invariant: the code's own `check_rep`, plus the C15 space clause
 /// ("space held for consumed elements is at most half the backing container's length").
@@ -79,9 +83,14 @@ impl Mk for SmallVec<[u8; 2]> {
 /// consumed prefix are enumerated by concrete loops (CBMC's memmove model -- copy_within in `slide`
 /// -- does not finish on symbolic sizes), the contents are symbolic.
 fn for_each_state<C: Mk>(f: fn(SlidingDeque<C>)) {
+    for_each_state_in::<C>(0, N, f)
+}
+
+/// ... restricted to container lengths lo..=hi (to split a slow harness over several CBMC runs)
+fn for_each_state_in<C: Mk>(lo: usize, hi: usize, f: fn(SlidingDeque<C>)) {
     let arr: [u8; N] = kani::any();
-    let mut len = 0;
-    while len <= N {
+    let mut len = lo;
+    while len <= hi {
         let mut consumed = 0;
         while consumed <= len / 2 {
             let d = SlidingDeque { consumed_prefix: consumed, container: C::mk(&arr[..len]) };
@@ -109,7 +118,7 @@ fn h_push_back<C: Mk>(mut d: SlidingDeque<C>) {
     }
     assert!(s[v.len] == x);
     assert!(d.back() == Some(&x));
-    kani::cover!(v.len == N);
+    kani::cover!(v.len >= 2);
     kani::cover!(d.consumed_prefix > 0);
 }
 
@@ -152,8 +161,8 @@ fn h_advance<C: Mk>(mut d: SlidingDeque<C>) {
     let base = d;
     let v = view_of(&base);
     let mut k = 0;
-    while k <= N + 4 {
-        let count = if k <= N + 1 { k } else if k == N + 2 { usize::MAX } else if k == N + 3 { usize::MAX - 1 } else { 1usize << 63 };
+    while k <= N + 3 {
+        let count = if k <= N + 1 { k } else if k == N + 2 { usize::MAX } else { 1usize << 63 };
         let mut d = base.clone();
         let r = d.advance(count);
         assert!(rep_ok(&d));
@@ -245,7 +254,7 @@ macro_rules! both {
         #[kani::proof]
         #[kani::unwind(@@U@@)]
         fn $small() {
-            for_each_state::<SmallVec<[u8; 2]>>($h::<SmallVec<[u8; 2]>>)
+            for_each_state_in::<SmallVec<[u8; 2]>>(0, NS, $h::<SmallVec<[u8; 2]>>)
         }
     };
 }
@@ -253,7 +262,20 @@ macro_rules! both {
 both!(h_push_back, c15_vec_push_back, c15_small_push_back);
 both!(h_pop_front, c15_vec_pop_front, c15_small_pop_front);
 both!(h_pop_back, c15_vec_pop_back, c15_small_pop_back);
-both!(h_advance, c15_vec_advance, c15_small_advance);
+macro_rules! advance_split {
+    ($name:ident, $c:ty, $lo:expr, $hi:expr) => {
+        #[kani::proof]
+        #[kani::unwind(@@U@@)]
+        fn $name() {
+            for_each_state_in::<$c>($lo, $hi, h_advance::<$c>)
+        }
+    };
+}
+advance_split!(c15_vec_advance_a, Vec<u8>, 0, N - 2);
+advance_split!(c15_vec_advance_b, Vec<u8>, N - 1, N - 1);
+advance_split!(c15_vec_advance_c, Vec<u8>, N, N);
+advance_split!(c15_small_advance_a, SmallVec<[u8; 2]>, 0, NS - 1);
+advance_split!(c15_small_advance_b, SmallVec<[u8; 2]>, NS, NS);
 both!(h_clear, c15_vec_clear, c15_small_clear);
 both!(h_slide, c15_vec_slide, c15_small_slide);
 both!(h_views, c15_vec_views, c15_small_views);
